@@ -114,7 +114,7 @@ impl RevocationBitmap {
     // This fix checks if the encoded string it receives as input has undergone such process
     // and undo the inner Base64 encoding before processing the input further.
     let mut data = Cow::Borrowed(data.as_ref());
-    if !data.starts_with("eJy") {
+    if !data.starts_with("eJ") {
       // Base64 encoded zlib default compression header
       let decoded = BaseEncoding::decode(&data, Base::Base64)
         .map_err(|e| RevocationError::Base64DecodingError(data.into_owned(), e))?;
